@@ -234,6 +234,14 @@ def _state_ok(db, why, pool=None, connections=None):
     return not why
 
 
+def _say(result):
+    """When run from a replay script (replays/.../violation_NN.py): print why the scenario failed and the call journal."""
+    import sys
+    if not result and 'violation_' in (sys.argv[0] if sys.argv else ''):
+        print('reasons: %s' % '; '.join(LAST.get('why', ())))
+        print('DB-API call journal: %s' % rec.dump())
+
+
 def _scenario(kind, shape, k1, k2, k3, raises, mid, exc_kind):
     # decide the small symbolic options here, under tracing; the fault numbers stay symbolic
     raises = True if raises else False
@@ -241,7 +249,9 @@ def _scenario(kind, shape, k1, k2, k3, raises, mid, exc_kind):
     shape = 0 if shape == 0 else 1 if shape == 1 else 2 if shape == 2 else 3 if shape == 3 else 4
     exc_kind = 0 if exc_kind == 0 else 1 if exc_kind == 1 else 2
     with F.untraced(rec):
-        return _scenario_body(kind, shape, (k1, k2, k3), raises, mid, exc_kind)
+        r = _scenario_body(kind, shape, (k1, k2, k3), raises, mid, exc_kind)
+    _say(r)
+    return r
 
 
 COUNT = [0]
